@@ -5,6 +5,7 @@ package jsonfe
 import (
 	"errors"
 	"fmt"
+	"github.com/ohler55/ojg"
 
 	"github.com/ohler55/ojg/gen"
 	"github.com/ohler55/ojg/oj"
@@ -52,6 +53,21 @@ var FEs = []FE{
 	{"gen.Parser.ParseReader", true, func(x []byte, pl jsongen.Plan) error {
 		var p gen.Parser
 		_, e := p.ParseReader(pl.Reader(x))
+		return e
+	}},
+}
+
+// OptionFEs are the strict front-ends called with options that must not change what is accepted (used by
+// C01 in addition to FEs).
+var OptionFEs = []FE{
+	{"oj.Parse(NumConvString)", false, func(x []byte, _ jsongen.Plan) error { _, e := oj.Parse(x, ojg.NumConvString); return e }},
+	{"oj.ParseString(NumConvFloat64)", false, func(x []byte, _ jsongen.Plan) error { _, e := oj.ParseString(string(x), ojg.NumConvFloat64); return e }},
+	{"oj.Load(NumConvString)", true, func(x []byte, pl jsongen.Plan) error { _, e := oj.Load(pl.Reader(x), ojg.NumConvString); return e }},
+	{"oj.Parser.Parse(Reuse)", false, func(x []byte, _ jsongen.Plan) error { p := oj.Parser{Reuse: true}; _, e := p.Parse(x); return e }},
+	{"gen.Parser.Parse(twice)", false, func(x []byte, _ jsongen.Plan) error {
+		var p gen.Parser
+		_, _ = p.Parse(x)
+		_, e := p.Parse(x)
 		return e
 	}},
 }
